@@ -30,6 +30,7 @@ import vgi_rpc._codec as codec
 import vgi_rpc.http.server._middleware as mw
 from pyvc import models
 from pyvc import values as V
+import falcon
 from pyvc.api import *  # noqa: F403
 from pyvc.api import BoundedResult, PyRaise, ReplayResult, SExc, bounded, unit
 
@@ -42,7 +43,7 @@ MANIFEST = {
 EXPLANATION = MANIFEST["level_text"]
 TRUSTED = [
     "pyvc VC generator, slicer (pyvc/slicing.py) and its encoding of Python str/bytes/lists (DESIGN §3.1)",
-    "z3 5.1.0 / cvc5 1.0.3",
+    "z3 5.1.0 / cvc5 1.4.0",
     "str.split(','): returns a list of str (by-contract handler answering with an arbitrary symbolic list of tokens; the specification is stated over that list)",
     "falcon: process_request / responder / process_response of one request share req.context and the contextvars context; resp.set_header(name, value) sets exactly that header; resp.data / resp.stream are the body",
     "zstandard.ZstdCompressor(level).compress / .stream_writer(out, size=n) and zlib.compressobj(level, DEFLATED, 31).compress/.flush(Z_FINISH): the emitted frame decodes to the concatenation of the fed bytes (exercised on the real libraries by the bounded stand-ins of C18 and of this file)",
@@ -400,15 +401,32 @@ def request_side(S: Any) -> None:
     # range makes "only for zstd/gzip" a statement about this function alone)
     chosen = [None, ENC.ZSTD, ENC.GZIP, ENC.IDENTITY][S.choose(4)]
     flag = S.choose(2) == 1
-    empty_ce = S.choose(2) == 1
-    S.inputs.update({"chosen": chosen.name if chosen else None, "flag": flag, "empty_content_encoding": empty_ce})
+    # the request body: uncoded (no / empty Content-Encoding), or coded and refused while decoding (unknown coding 415,
+    # undecodable 400, over the cap 413 - decoding itself is C17); a refused request is still *answered*, and
+    # process_response reads the same per-request variables for that answer
+    body_case = ["absent", "empty", "unknown_coding", "undecodable", "over_cap"][S.choose(5)]
+    empty_ce = body_case == "empty"
+    S.inputs.update({"chosen": chosen.name if chosen else None, "flag": flag, "empty_content_encoding": empty_ce, "request_body": body_case})
+
+    def decompress(S_: Any, enc: Any, data: Any, max_output_size: Any = None) -> Any:
+        import vgi_rpc._codec as _codec
+
+        if body_case == "over_cap":
+            raise PyRaise(SExc(_codec.DecompressionLimitExceeded, ("too large",)))
+        raise PyRaise(SExc(_codec.DecompressionError, ("garbage",)))
+
+    S.handlers["decompress"] = decompress
+    S.handlers["Request.bounded_stream@get"] = lambda S_, r: SObj(None, kind="BodyStream")
+    S.handlers["BodyStream.read"] = lambda S_, b, *a: S.bytes("wire_body")
+    for cls in (falcon.HTTPUnsupportedMediaType, falcon.HTTPBadRequest, falcon.HTTPContentTooLarge):
+        S.handlers[cls] = (lambda c: lambda S_, **kw: SExc(c, (), dict(kw)))(cls)
     S.handlers["_CompressionMiddleware._pick_response_encoding"] = lambda S_, m, r: (chosen, flag)
 
     other_headers: dict[str, Any] = {}
 
     def get_header(S_: Any, r: Any, name: Any, *a: Any, **k: Any) -> Any:
         if name == "Content-Encoding":
-            return "" if empty_ce else None  # an uncoded request body: decoding is C17
+            return {"absent": None, "empty": "", "unknown_coding": "br", "undecodable": "gzip", "over_cap": "zstd"}[body_case]
         # any other header (the two accept headers included) is present with some value or absent: whatever the request
         # carried, what is published for the producer must be this request's negotiated coding (by-contract `chosen`)
         if name not in other_headers:
@@ -424,7 +442,10 @@ def request_side(S: Any) -> None:
     S.ghost["__ctxvars__"] = {mw._current_response_codec: "stale", mw._current_body_precompressed: True}
     me = SObj(mw._CompressionMiddleware, _levels={ENC.ZSTD: 3, ENC.GZIP: 6}, _decode=(ENC.ZSTD, ENC.GZIP), _max_decompressed_bytes=None)
     out = S.outcome(mw._CompressionMiddleware.process_request, me, req, SObj(None, kind="Response"))
-    S.oblige("O4.never_raises_for_an_uncoded_request", out.returned, kind="raises")
+    if body_case in ("absent", "empty"):
+        S.oblige("O4.never_raises_for_an_uncoded_request", out.returned, kind="raises")
+    else:
+        S.oblige("O4.a_refused_body_raises_an_http_error", out.raised and exc_is(out.exc, falcon.HTTPError), kind="raises", witness=body_case)
     store = S.ghost["__ctxvars__"]
     published = store.get(mw._current_response_codec, "<unset>")
     want = chosen.value if chosen in (ENC.ZSTD, ENC.GZIP) else None
